@@ -101,7 +101,7 @@ fn c11_generate(ctx: &mut Ctx) {
 }
 
 fn c11_exec(toks: &[&str]) -> String {
-    if matches!(toks.first(), Some(&"pubx") | Some(&"idx")) { c11b::exec(toks) } else { c11::exec(toks) }
+    if matches!(toks.first(), Some(&"pubx") | Some(&"idx") | Some(&"prvx")) { c11b::exec(toks) } else { c11::exec(toks) }
 }
 
 fn c05_generate(ctx: &mut Ctx) {
